@@ -1,8 +1,9 @@
 (** Correspondence cases of the `codec` family serving C47 (no panics): each constructor carries the inputs
     the real function was run on and the observed outcome class (0 ok, 1 err, 2 panic) plus parsed values;
     [check47] recomputes them with the Gallina models the C47 theorems are about. *)
-From IBC Require Import Lib.Bytes Lib.BytesFacts Lib.Dec Lib.CorrLib Core.Height
-  Codec.NoPanicBase Codec.NoPanicJson Codec.NoPanicMsgs.
+From IBC Require Import Lib.Bytes Lib.BytesFacts Lib.Dec Lib.CorrLib Core.Height.
+(** exported: the generated case files import only this module (tools/families/codec.py) *)
+From IBC Require Export Codec.NoPanicBase Codec.NoPanicJson Codec.NoPanicMsgs.
 Local Open Scope N_scope.
 
 Definition cls_is {A} (r : res A) (c : N) : bool := cls r =? c.
@@ -13,7 +14,7 @@ Definition res_is {A} (eqb : A -> A -> bool) (r : res A) (c : N) (v : option A) 
                 | Ok _, None => false
                 | _, _ => true
                 end.
-Definition pair_eqb {A B} (ea : A -> A -> bool) (eb : B -> B -> bool) (x y : A * B) : bool :=
+Definition c47_pair_eqb {A B} (ea : A -> A -> bool) (eb : B -> B -> bool) (x y : A * B) : bool :=
   ea (fst x) (fst y) && eb (snd x) (snd y).
 Definition height_eqb (a b : Height) : bool := (rev a =? rev b) && (ht a =? ht b).
 Definition hop_eqb (a b : Hop) : bool := bytes_eqb (hop_port a) (hop_port b) && bytes_eqb (hop_chan a) (hop_chan b).
@@ -31,8 +32,8 @@ Definition cb_eqb (a b : CallbackData) : bool :=
   bytes_eqb (cb_addr a) (cb_addr b) && (cb_exec_gas a =? cb_exec_gas b) &&
   (cb_commit_gas a =? cb_commit_gas b) && bytes_eqb (cb_calldata a) (cb_calldata b).
 
-(** [zeros n]: n NUL bytes (large packet data travels as its length) *)
-Definition zeros (n : N) : bytes := repeat (ascii_of_N 0) (N.to_nat n).
+(** [c47_zeros n]: n NUL bytes (large packet data travels as its length) *)
+Definition c47_zeros (n : N) : bytes := repeat (ascii_of_N 0) (N.to_nat n).
 
 Inductive Case47 :=
 | IdVal (which : N) (id : bytes) (c : N)
@@ -82,7 +83,7 @@ Definition check47 (c : Case47) : bool :=
   | ChainId s c v => res_is N.eqb (parse_chain_id s) c v
   | SetRev s n c v => res_is bytes_eqb (set_revision_number s n) c v
   | ClientId s c v c2 valid =>
-      res_is (pair_eqb bytes_eqb N.eqb) (parse_client_identifier s) c v &&
+      res_is (c47_pair_eqb bytes_eqb N.eqb) (parse_client_identifier s) c v &&
       res_is bool_eqb (is_valid_client_id s) c2 (Some valid)
   | ClientType s c => cls_is (validate_client_type s) c
   | DenomX s c base trace vc c3 hp =>
